@@ -489,7 +489,7 @@ def main(ctx):
     def verification_side():
         prog2, info2 = load(c03.CRATES, src_only=c03.SRC)
         c03.run(ctx, prog2, only=r'^verify_jws/')
-        c04.run(ctx, prog2, only=r'^resolve_method/|^resolve_method_ref/|^DIDUrlQuery::')
+        c04.run(ctx, prog2, only=r'^resolve_method/|^resolve_method_inner/|^resolve_method_ref/|^DIDUrlQuery::')
     guarded(ctx, 'verification side', 'M', verification_side)
 
     def options_builders():
